@@ -57,6 +57,15 @@ PROPS = {
         "level_note": _TB + "Modelled not verified: the flip scheduler (queues, budgets, cycle detection) and the rebuild insertion. Convergence is not a theorem. Facet flips are admissible under Pseudomanifold per the code and its unit tests (docs/workflows.md says the opposite: recorded as a documentation discrepancy, not a violation).",
         "technique": "Lean 4 proof of the repair control structure (gate, rollback, admissibility, budget) over an arbitrary flip scheduler + exact-oracle judgement of every real repair result",
     },
+    "C09": {
+        "lean_modules": ["DelaunayModel.Props.C09"],
+        "required_theorems": ["DM.C09.grid_complete", "DM.C09.consistent_query_eq_scan", "DM.C09.never_refused_for_removed",
+                              "DM.C09.reachable_consistent", "DM.C09.reachable_query_eq_scan", "DM.C09.reachable_pairSep",
+                              "DM.C09.insert_refuses_duplicates", "DM.C09.buggy_witness", "DM.C09.fixed_witness"],
+        "level_text": "Theorems (Lean kernel), by induction over ARBITRARY operation histories (seed, insert, remove, Edit-API vertex insert/remove, index drop, clone): the grid cache stays consistent with the live vertex set, so the grid query (3^D neighbourhood, stale keys ignored) answers exactly like the linear scan (grid_complete: within tolerance => neighbouring bucket, over exact integers); a point is only ever refused because of a LIVE vertex; checked insertions keep all live vertices pairwise at least the tolerance apart. buggy_witness / fixed_witness: the pre-fix Edit-API behaviour breaks the invariant with a 2-operation history, the repaired one does not. Correspondence (K2): histories interleaving batch build, insert, remove_vertex, flip_k1_insert/flip_k1_remove, clone, serde round trip, as_triangulation_mut; after every step probes insert(p), insert(p+0.5 tol), insert(p+2 tol) at current and former vertex positions and a UUID-reuse probe are run on a clone and the outcome class is compared with the model's exact scan answer.",
+        "level_note": _TB + "Outside the model: f64 floor(p/1e-10) at bucket edges (probes keep a 1e-6 relative collar around the tolerance), hash collisions of grid keys, slotmap key versioning (stale keys are modelled as never resolving). Batch-construction dedup policies are covered by C17.",
+        "technique": "Lean 4 invariant proof over all operation histories of the duplicate cache + probe-based refinement check of the real insert against the model",
+    },
     "C04": {
         "lean_modules": ["DelaunayModel.Props.C04"],
         "required_theorems": ["DM.C04.emptySphere_iff", "DM.C04.k2_symmetric", "DM.C04.k2_both_positive",
